@@ -610,7 +610,7 @@ Theorem C11_generated_code_is_model :
   (forall cis cl cid at_ eps, gen_find_visible cis cl cid at_ eps = find_visible cis cl cid at_ eps) /\
   (forall cis cl end_, gen_version_before cis cl end_ = version_before cis cl end_) /\
   (forall cis current cl np o,
-     gen_next_version_index cis current cl np o = res_map Z.of_nat (next_version_index cis current cl np o)) /\
+     gen_next_version_index_at cis current cl np o = res_map Z.of_nat (next_version_index cis current cl np o)) /\
   (forall c r, gen_way_set_child c r = set_ref c r /\ gen_relation_set_child c r = set_ref c r) /\
   (forall filter r, gen_skip_ref (gen_way_annotated r) filter (r_id r) = filtered_out filter r /\
                     gen_skip_ref (gen_relation_annotated r) filter (r_id r) = filtered_out filter r) /\
